@@ -135,6 +135,14 @@ def generate(tier, rng):
     yield {'kind': 'numeric', 'srcs': numeric_forms()}
     yield {'kind': 'ops3', 'srcs': [bytes(t) for t in itertools.product(OPALPHA, repeat=3)]}
     yield {'kind': 'multiline', 'srcs': multiline_forms()}
+    # every control byte (and a few high bytes) inside a line comment, a quoted string, a long string and a block
+    # comment: content of the token, never a line end (only LF / CR are) - whichever route the text takes
+    ctl = []
+    for c in list(range(0, 10)) + [11, 12] + list(range(14, 32)) + [0x7f, 0x80, 0x85, 0xa0, 0xff]:
+        b = bytes([c])
+        ctl += [b'x=1 -- a' + b + b"y='2\nz=3\n", b'x=1 // ' + b + b'"\\65"\nz=3', b's="a' + b + b'b" t=1\n',
+                b'x=[[a' + b + b'b]]\ny=1\n', b'--[[a' + b + b'b]]x=1\n']
+    yield {'kind': 'control-bytes', 'srcs': ctl}
     yield {'kind': 'soup', 'srcs': list(soup(rng, 1500 if tier == 'quick' else 30000))}
     nprog = 300 if tier == 'quick' else 5000
     progs = []
